@@ -382,7 +382,7 @@ def bfs(mod, inits, depth, jobs, totals, chunk=8, state_cap=None):
 def _helpers():
     return {"any": any, "all": all, "len": len, "min": min, "max": max, "sum": sum,
             "abs": abs, "sorted": sorted, "set": set, "tuple": tuple, "list": list,
-            "zip": zip, "range": range, "str": str, "int": int, "isinstance": isinstance,
+            "zip": zip, "range": range, "str": str, "int": int, "isinstance": isinstance, "map": map,
             "True": True, "False": False, "None": None}
 
 
@@ -416,7 +416,9 @@ def explains(entry, f) -> bool:
         ns.update(case)
     ns["case"] = case
     try:
-        return bool(eval(when, {"__builtins__": {}}, ns))
+        g = {"__builtins__": {}}
+        g.update(ns)  # one namespace: generator expressions inside `when` resolve names in globals
+        return bool(eval(when, g))
     except Exception:
         return False
 
@@ -445,6 +447,17 @@ def triage(prop_id, mod, totals):
     stale = []
     witness_fail = {}
     for e in known:
+        if e.get("status") == "fixed" and e.get("witness") is not None:
+            # a fixed entry suppresses nothing; its witness is re-run as a regression case
+            ctx = Ctx()
+            _worker_init(prop_id, quiet=True)
+            run_one(mod, e["witness"], ctx)
+            sys.stdout = sys.__stdout__
+            for f in ctx.failures:
+                if not any(explains(k, f) for k in known):
+                    key = (f["check"], f["op"], f.get("variant", ""), f["symptom"])
+                    classes.setdefault(key, []).append(f)
+            continue
         if e.get("status") != "known" or "witness" not in e:
             continue
         ctx = Ctx()
